@@ -65,6 +65,7 @@ theorem arm_some_sound (p : Nat) (hp4 : p = 4 ∨ p = 8) (c : Cfg) (t : Ty) (v :
     omega
   have hcl : casts.length = rs.length := by rw [hclen, hsh.2]; omega
   have hcasted := evalList_applyCasts _ m casts rs _ hcl hrs hplen
+    (by rw [enter_p, hp]; exact castsFor_typed p hp4 _ _ casts _ hcasts hwf'.1)
   rw [enter_p, hp] at hcasted
   have hz := evalList_zeros (env.enter (lvl + 1) { payload := some (MV.v v) }) m
     (results.drop (1 + (flatten t).length))
